@@ -199,6 +199,13 @@ def run(ctx):
         else:
             line = "K EQU %s%s%s\n" % (pre, tok, stray)
         longs.append([line] if rnd.random() < 0.7 else [" ORG $1000\n", line, " RTS \n"])
+    # numbers of thousands of digits (the interpreter refuses to convert more than 4300 digits): a number too large is a diagnostic like 65536 is
+    for nd in (4299, 4300, 4301, 5000, 20000):
+        for lead in ("1", "0", "9"):
+            digs = lead * nd
+            for line in (" LDA #%s\n" % digs, " LDX #-%s\n" % digs, " FCB 1,%s\n" % digs, " FDB %s\n" % digs, " RMB %s\n" % digs, "K EQU %s\n" % digs, " ORG %s\n" % digs,
+                         " LDA %s,X\n" % digs, " LDA #1+%s\n" % digs, " LEAX %s,PCR\n" % digs, " JMP [%s]\n" % digs, " LDA <%s\n" % digs, " LDD #$%s\n" % digs, " LDA #%%%s\n" % digs):
+                longs.append([" ORG $1000\n", line, " RTS \n"])
     asmcheck.run_text_suite(ctx, "long-tokens", longs)
     # expressions in the operands of the pseudo operations (EQU, ORG, RMB, FCB, FDB, SETDP, END): terms that are undefined, defined later, defined by another
     # expression, zero divisors, results beyond 16 bits - and statements that then use the symbol: every one ends with an image or a diagnostic
@@ -228,7 +235,7 @@ def run(ctx):
     os.environ["VERIF_SCRATCH"] = tlc.OUT
     t0 = time.time()
     with mp.Pool(16) as pool:
-        ts = pool.map(c19.one, [(k, rnd.randrange(1 << 40), "cycle" if k % 3 else "missing") for k in range(600 if thorough else 90)], chunksize=5)
+        ts = pool.map(c19.one, [(k, rnd.randrange(1 << 40), ("cycle", "missing", "notext", "cycle")[k % 4]) for k in range(600 if thorough else 90)], chunksize=5)
     for t in ts:
         ctx.add_class("include|%s|%s" % (t["mode"], t["a"]["outcome"]))
         if t["a"]["outcome"] not in ("parse", "translation"):
